@@ -89,6 +89,38 @@ pub fn classify_common<S: Subject>(sim: &Sim<S>, stats: &mut Stats) {
             stats.class("60+ ops in the history");
         }
     }
+    {
+        // container size (only the big-alphabet subjects get beyond 3)
+        let mut nested_biggest = 0usize;
+        let biggest = sim
+            .reps
+            .iter()
+            .map(|r| {
+                let o = S::observe(&r.st);
+                for (k, v) in o.iter() {
+                    if k.starts_with("key:") {
+                        if let Some(a) = v.get("val").and_then(|x| x.as_array()) {
+                            nested_biggest = nested_biggest.max(a.len());
+                        }
+                    }
+                }
+                o.get("members").or_else(|| o.get("keys")).and_then(|v| v.as_array()).map(|a| a.len()).unwrap_or(0)
+            })
+            .max()
+            .unwrap_or(0);
+        if nested_biggest >= 5 {
+            stats.class("a nested set / register under one key holds 5+ members / values");
+        }
+        if biggest >= 6 {
+            stats.class("some replica ends with 6+ members / keys");
+        }
+        if biggest >= 8 {
+            stats.class("some replica ends with 8+ members / keys");
+        }
+        if sim.metas.iter().any(|m| matches!(&m.sem, Sem::SetRm { members, .. } if members.len() >= 6)) {
+            stats.class("a remove naming 6+ members");
+        }
+    }
     if sim.metas.iter().any(|m| m.call.contains("EARLIER")) {
         stats.class("remove built from a stale (earlier) read context");
     }
